@@ -185,19 +185,6 @@ func zzRefBind(s zzSig, npos int, kwNames []string) zzBound {
 	return b
 }
 
-// zzValueID maps the small ints used as argument values back to their id (-1 if not one).
-func zzValueID(x Value) int {
-	xi, ok := x.(Int)
-	if !ok {
-		return -1
-	}
-	a, ok := xi.Int64()
-	if !ok {
-		return -1
-	}
-	return int(a)
-}
-
 // zzCheckKwargsDict compares a **kwargs dict with the reference: the keywords
 // with inKw set, in call order, with values 11+j.
 func zzCheckKwargsDict(d *Dict, ref zzBound, kwNames []string, prefix string) {
